@@ -182,6 +182,7 @@ class ExtCommunity(Attribute):
         """
         ext_community_hex = b''
         for item in value:
+            encoded_len = len(ext_community_hex)
             # for Route Target
             if item[0] == bgp_cons.BGP_EXT_COM_RT_0:
                 # Route Target, Format AS(2bytes):AN(4bytes)
@@ -259,6 +260,11 @@ class ExtCommunity(Attribute):
                 ext_community_hex += struct.pack('!HIBB', item[0], 0, 0, item[1].get('s', 0) * 2 + item[1].get('t', 0))
             else:
                 LOG.warn('unknow bgp extended community for construct, type=%s, value=%s', item[0], item[1])
+            # every extended community is 8 octets (RFC 4360); an IPv6 address or a MAC address
+            # that is not 6 octets long does not fit the field it is written to
+            if len(ext_community_hex) - encoded_len not in (0, 8):
+                raise excep.ConstructAttributeFailed(
+                    reason='extended community is not 8 octets long', data=item)
 
         if ext_community_hex:
             return struct.pack('!B', cls.FLAG) + struct.pack(
